@@ -158,20 +158,6 @@ example : batchArchive true
     [(⟨"a.xml".toList, .good 1⟩ : Member Nat), ⟨"b.xml".toList, .fault "ExpatError"⟩, ⟨"n.txt".toList, .fault "ExpatError"⟩,
      ⟨"c.xml".toList, .fault "KeyError"⟩, ⟨"d.xml".toList, .good 2⟩] = ([1, 2], none) := by decide
 
-/-- What the coverage hypothesis excludes, exactly: a fault raising a class that no clause names
-    escapes even with `ignore_errors=True` and ends the batch.  For loose files that is every `OSError`
-    (a missing or unreadable file: `FileNotFoundError`, `PermissionError`, `IsADirectoryError`); for
-    archives every `OSError` other than `FileNotFoundError`; in both routes e.g. `MemoryError` and
-    `RecursionError`.  None of these is among the fault kinds of the statement (they are measured to
-    raise ExpatError / TypeError / KeyError / ValueError). -/
-theorem C13_uncovered_class_escapes :
-    batchFiles true [(⟨"a.xml".toList, .good 1⟩ : Member Nat), ⟨"b.xml".toList, .fault "FileNotFoundError"⟩,
-                     ⟨"c.xml".toList, .good 2⟩] = ([1], some "FileNotFoundError") ∧
-    batchArchive true [(⟨"a.xml".toList, .good 1⟩ : Member Nat), ⟨"b.xml".toList, .fault "PermissionError"⟩,
-                       ⟨"c.xml".toList, .good 2⟩] = ([1], some "PermissionError") ∧
-    batchArchive true [(⟨"b.xml".toList, .fault "RecursionError"⟩ : Member Nat), ⟨"c.xml".toList, .good 2⟩]
-      = ([], some "RecursionError") := by decide
-
 example : isSubclass "FileNotFoundError" "OSError" = true ∧ isSubclass "UnicodeDecodeError" "ValueError" = true ∧
     isSubclass "ExpatError" "ValueError" = false := by decide
 
@@ -190,6 +176,30 @@ private theorem batch_prefix {α} (clauses : List Clause) (ig : Bool) (pre tail 
       | good a => simp [batch, goods, hm, ih']
       | fault c => simp [isGood, hm] at hg
     · simp [batch, goods, hc, hh, ih']
+
+/-- What the coverage hypothesis excludes, exactly: a fault raising a class that no except clause handles
+    (or that the clause handling it re-raises) escapes — whatever `ignore_errors` says — and ends the batch:
+    the members before it that were good are yielded, nothing after it is.  Stated for ANY clause tables, so it
+    holds of the tables the source has now, whatever classes they name; which classes escape today is read off
+    the regenerated tables (Generated/C13.lean) and sampled by the examples below.  None of the escaping classes
+    is among the fault kinds of the statement (they are measured to raise ExpatError / TypeError / KeyError /
+    ValueError). -/
+theorem C13_uncovered_class_escapes {α} (clauses : List Clause) (ig : Bool) (pre rest : List (Member α))
+    (bad : Member α) (c : String)
+    (hpre : ∀ m ∈ pre, isGood m = true ∨
+      (∃ c, m.out = .fault c ∧ handle clauses ig (nameLacks m.name) c = .continue_))
+    (hbad : bad.out = .fault c) (hraise : handle clauses ig (nameLacks bad.name) c = .raise_) :
+    batch clauses ig (pre ++ bad :: rest) = (goods pre, some c) := by
+  rw [batch_prefix clauses ig pre (bad :: rest) hpre]
+  simp [batch, hbad, hraise]
+
+/-- sampled on the tables of the source as they are now: a class outside every hierarchy the clauses could name
+    escapes both routes (non-vacuity of `C13_uncovered_class_escapes`); nothing here depends on WHICH classes
+    the clauses list, so widening a clause keeps it true -/
+example : batchFiles true [(⟨"a.xml".toList, .good 1⟩ : Member Nat), ⟨"b.xml".toList, .fault "NoSuchErrorClass"⟩,
+                           ⟨"c.xml".toList, .good 2⟩] = ([1], some "NoSuchErrorClass") ∧
+    batchArchive true [(⟨"b.xml".toList, .fault "NoSuchErrorClass"⟩ : Member Nat), ⟨"c.xml".toList, .good 2⟩]
+      = ([], some "NoSuchErrorClass") := by decide
 
 private theorem nonxml_skipped {α} (ig : Bool) (m : Member α) (h : isNonXml m = true) :
     ∃ c, m.out = .fault c ∧ handle archiveExcept ig (nameLacks m.name) c = .continue_ := by
